@@ -46,6 +46,18 @@ theorem wedgeIdx_some (l : List Sym) (acc slot : Nat) (hacc : acc ≤ slot)
     · simp only [hc, if_false]
       exact ⟨0, rfl, by simp⟩
 
+theorem wedgeIdx_none_of_zero (l : List Sym) (acc slot : Nat) (hacc : acc ≤ slot)
+    (h : ∀ s ∈ l, s.weight = 0) : wedgeIdx l acc slot = none := by
+  induction l generalizing acc with
+  | nil => rfl
+  | cons s rest ih =>
+    have hs : s.weight = 0 := h s (by simp)
+    unfold wedgeIdx
+    have hc : acc + s.weight ≤ slot := by omega
+    simp only [hc, if_true]
+    rw [ih (acc + s.weight) hc (fun t ht => h t (by simp [ht]))]
+    rfl
+
 theorem rouletteOf_mem (l : List Sym) (slot : Nat) (h : slot < wsum l) :
     ∃ s, rouletteOf l slot = some s ∧ s ∈ l := by
   obtain ⟨i, hi, hlt⟩ := wedgeIdx_some l 0 slot (by omega) (by omega)
